@@ -11,6 +11,7 @@ import TzVerif.Spec.Calendar
 import TzVerif.Proofs.Zoned
 import TzVerif.Proofs.SrcEqZone
 import TzVerif.Proofs.SrcEqFind
+import TzVerif.Generated.StableC14   -- per run: the current translation (SrcNow) equals the baseline (Src) these theorems are about
 
 namespace TzVerif.C14
 open TzVerif.Model TzVerif.Gen TzVerif.Proofs
